@@ -4,7 +4,7 @@
   filter_result_multiple}` (C13).
 
   `remove_overlapping` is modelled with `fixes/D25_first_hit_twice.patch` (the grouping loop starts
-  at the second hit), `fixes/D61_overlap_groups_are_components.patch` (`filter_results` unites the
+  at the second hit), `fixes/D62_overlap_groups_are_components.patch` (`filter_results` unites the
   overlap groups a pair connects) and `fixes/D26_hmmer_total_sort_key.patch` (the hits are first sorted by the
   total key `(protein_start, protein_end, identifier, score)`) applied.
 
@@ -147,7 +147,7 @@ def unionNew (acc g : List FHit) : List FHit := g.foldl addNew acc
 /-- does the group share a member with the pair -/
 def touches (a b : FHit) (g : List FHit) : Bool := g.contains a || g.contains b
 
-/-- one step of the double loop over `cdsresults` (fix D61): the groups sharing a member with the
+/-- one step of the double loop over `cdsresults` (fix D62): the groups sharing a member with the
     pair are united with it into one group, which is appended after the untouched ones -/
 def addPair (groups : List (List FHit)) (a b : FHit) : List (List FHit) :=
   if a.uid == b.uid || decide (overlapSize a b ≤ 20) then groups
